@@ -189,6 +189,12 @@ class Executor(CallMixin, EvalMixin, ExprMixin, StmtMixin):
             i = z3.Int("i!ia%d" % (id(node) % 9973)); n = T.list_len(ty, l2.t)
             return SV(T.Bool, z3.And(T.list_len(ty, l1.t) == n + 1, T.list_arr(ty, l1.t)[n] == x.t,
                       z3.ForAll([i], z3.Implies(z3.And(i >= 0, i < n), T.list_arr(ty, l1.t)[i] == T.list_arr(ty, l2.t)[i]))))
+        if name == "at":
+            # spec-level indexing without Python's negative-index rule (the index is known to be in range where it is used):
+            # keeps quantifier triggers free of ite terms
+            l = a[0]
+            if isinstance(l.ty, T.Opt): l = SV(l.ty.t, T.opt_val(l.ty, l.t))
+            v = SV(l.ty.t, z3.Select(T.list_arr(l.ty, l.t), self.coerce(a[1], T.Int).t)); return v
         if name == "is_empty_list":
             return SV(T.Bool, T.list_len(a[0].ty, a[0].t) == 0)
         if name == "unboxed":
@@ -281,7 +287,16 @@ class Executor(CallMixin, EvalMixin, ExprMixin, StmtMixin):
             if n not in c.params:
                 if n == "verbose":
                     st.env[n] = SV(T.Bool, fresh("verbose", T.Bool)); continue
-                raise VCError("%s: parameter %s has no declared type" % (c.qual, n))
+                # a parameter the contract does not know (added later, with a default): the contract is silent about it, so it is an
+                # UNCONSTRAINED input of the default's type - callers may pass anything, the postcondition must hold for all of it
+                d = defaults.get(n)
+                dty = None
+                if isinstance(d, ast.Constant):
+                    dty = {bool: T.Bool, int: T.Int, str: T.Str, float: T.Real}.get(type(d.value))
+                if dty is None: raise VCError("%s: parameter %s has no declared type" % (c.qual, n))
+                v = SV(dty, fresh(n, dty)); st.env[n] = v; self.current_inputs[n] = v
+                self.note_assumption("%s: parameter %s is not in the contract: treated as an unconstrained %s" % (c.qual, n, dty))
+                continue
             ty = c.params[n]
             if isinstance(ty, tuple) and ty[0] == "display":
                 vs = [SV(t, fresh(n + "_%d" % i, t)) for i, t in enumerate(ty[1])]
